@@ -372,7 +372,7 @@ def warm(mod):
         mod.warm()
 
 
-def main(prop, tier="quick", seed=0, replay=None, budget=None, workers=None, verbose=False):
+def main(prop, tier="quick", seed=0, replay=None, budget=None, workers=None, verbose=False, run_seed=None):
     t0 = time.time()
     mod = importlib.import_module(f"checks.{prop}")
     base = scratch_base()
@@ -386,6 +386,17 @@ def main(prop, tier="quick", seed=0, replay=None, budget=None, workers=None, ver
         warm(mod)
         if replay:
             return do_replay(mod, replay, tier, verbose)
+        if run_seed is not None:
+            # re-execute ONE run of a batch by its run seed (as printed in replay file names)
+            res = run_one(mod, int(run_seed), None, tier, timeout=900.0, want_plan=True)
+            print(json.dumps({k: res.get(k) for k in ("verdict", "oracle", "signature", "detail", "digest")}, indent=1)[:6000])
+            if res.get("verdict") in ("violation", "error"):
+                path = os.path.join(VERIF, "replays", f"{mod.PROPERTY}-{run_seed}.json")
+                os.makedirs(os.path.dirname(path), exist_ok=True)
+                with open(path, "w") as f:
+                    json.dump({"property": mod.PROPERTY, "run_seed": int(run_seed), "tier": tier, "plan": res.get("plan"), "verdict": {k: res.get(k) for k in ("oracle", "signature", "detail", "digest", "vdigest")}}, f, indent=1, default=_jsonable)
+                print("saved (unshrunk):", path)
+            return 0 if res.get("verdict") == "ok" else 1
         return do_batch(mod, tier, seed, budget, workers, t0)
     finally:
         shutil.rmtree(base, ignore_errors=True)
@@ -630,6 +641,14 @@ def do_batch(mod, tier, seed, budget, workers, t0):
         harness_notes.append(f"{nerr} runs/workers ended in a harness error")
         for e in agg.errors[:2]:
             harness_notes.append(str(e.get("detail"))[-1500:])
+        # keep the failing runs replayable for triage
+        os.makedirs(os.path.join(VERIF, "replays"), exist_ok=True)
+        for e in agg.errors[:3]:
+            if e.get("plan") is not None:
+                path = os.path.join(VERIF, "replays", f"{prop}-error-{e.get('run_seed')}.json")
+                with open(path, "w") as f:
+                    json.dump({"property": prop, "run_seed": e.get("run_seed"), "tier": tier, "plan": e.get("plan"), "verdict": {"oracle": "harness-error", "signature": None, "detail": str(e.get("detail"))[-3000:]}}, f, indent=1, default=_jsonable)
+                harness_notes.append(f"error run saved: {path}")
     if agg.runs and ntimeout > max(2, agg.runs // 20):
         harness_notes.append(f"{ntimeout} of {agg.runs} runs timed out")
     if agg.runs == 0:
